@@ -220,6 +220,28 @@ def wf_index(tree, nodes, *, expected_id=None, probe_ids=(), probe_data=(), id_o
                 errs.append(f"clone query on {safe_repr(n)} raised {e!r}")
         if len(errs) > 8:
             return errs
+    # index access: a node_id resolves to its node; an id that is no node_id and carried by exactly one node resolves to it
+    try:
+        nids = {}
+        for n in nodes:
+            nids[n.node_id] = n
+        k = 0
+        for n in nodes:
+            if k >= 10:
+                break
+            k += 1
+            got = tree[n.node_id]
+            cnt("getitem(node_id)")
+            if got is not n:
+                errs.append(f"tree[{n.node_id!r}] (a node_id) returns {got!r}, the node with that node_id is {safe_repr(n)}")
+            d = n.data_id
+            if isinstance(d, (int, str)) and not isinstance(d, bool) and d not in nids and len(S.get(d, [])) == 1:
+                got = tree[d]
+                cnt("getitem(data_id)")
+                if got is not n:
+                    errs.append(f"tree[{d!r}] (a data_id carried by one node) returns {got!r}, expected {safe_repr(n)}")
+    except Exception as e:
+        errs.append(f"index access raised {e!r}")
     if id_of_data is not None:
         datas = list(probe_data)
         for n in nodes:
@@ -275,6 +297,10 @@ def wf_index(tree, nodes, *, expected_id=None, probe_ids=(), probe_data=(), id_o
                 got = list(par.find_all(n.data))
                 got2 = list(par.find_all(data_id=d))
                 ff = par.find_first(n.data)
+                # the start node itself is part of the searched branch when add_self is given
+                own = list(n.find_all(n.data, add_self=True))
+                if not any(x is n for x in own):
+                    errs.append(f"{safe_repr(n)}.find_all(<its own data>, add_self=True) returns {own!r} without the node itself")
                 ff2 = par.find_first(data_id=d)
                 if ff2 is None or not any(ff2 is w for w in want):
                     errs.append(f"{safe_repr(par)}.find_first(data_id={d!r}) returns {ff2!r}, nodes of that branch carrying the id: {want!r}")
